@@ -201,7 +201,9 @@ CLAIMED = {
                 "and generated workbooks (up to 60 items per kind and sheet, XML-special and non-ASCII texts, several sheets) "
                 "run on the real library; Trace_Annot.tla judges the getter view after reload and an independent decoder's "
                 "view of the written hyperlinks, merges, defined names and sheet list. Link-heavy cases are repeated in fresh "
-                "driver processes (hash seeds differ per process).",
+                "driver processes (hash seeds differ per process). Code names and macro payloads crossed with tab colours, "
+                "multi-run comments with white space at run edges, padded tooltips/prompts/authors and sheets with 3-6 "
+                "distinct mixed-case authors (every order by TLC on a small pool) are part of every run.",
         "note": TRUST + ", pydec/annot_view.py. Collections compared as sets plus a no-duplicate check. Model contract: one "
                         "comment per cell, distinct names, a sheet is renamed only while it keeps no names. Tooltips are not "
                         "generated.",
@@ -217,7 +219,9 @@ CLAIMED = {
                 "(thorough: depth 2), fixed exemplars and 1500 (thorough 40000) random workbooks with formulas of depth <= 4 "
                 "(6) and histories of 1-4 edits at references and grid limits are run through Spreadsheet::insert_new_row / "
                 "insert_new_column_by_index / remove_row / remove_column_by_index; after every edit Cell::get_formula, "
-                "DefinedName::get_address and chart series addresses of all sheets are judged by TLC.",
+                "DefinedName::get_address and chart series addresses (every chart kind of a combination chart) of all sheets are "
+                "judged by TLC; intersections with function-call / parenthesised / name operands, and workbooks that were saved "
+                "and re-read with shared-formula groups (members = the master translated by the specification) are included.",
         "note": TRUST + ". In-range edits only. After a deviation whose result is no longer a token list, or a panic half-way "
                         "through an edit, the rest of that case is not judged. At most one chart per sheet; a chart may vanish "
                         "with its anchor rows.",
@@ -287,7 +291,10 @@ CLAIMED = {
                 "reader::xlsx::read_reader and dumped through public getters; raw encodings are extracted by the independent "
                 "pydec reader, and TLC accepts a cell only if value, kind, formula and number format are exactly what the "
                 "specification decodes, or exactly what the model of an open finding computes. Sheet names, hyperlink "
-                "targets/locations, table columns and defined-name names are compared as attribute values.",
+                "targets/locations, table columns and defined-name names are compared as attribute values. Cell positions "
+                "(optional r= on rows and cells), ST_Xstring escapes (_xHHHH_ over UTF-16 units) and the number-format "
+                "resolution (a declared code wins for any id, else the ECMA built-in) are derived by the specification itself; "
+                "the per-cell format is read a second time after one in-memory save.",
         "note": TRUST + ", pydec/xlsx.py + pydec/decode_extract.py + pydec/build_xlsx.py. Decimal text to double, ST_Xstring "
                         "unescaping, XML parsing and white-space trimming happen in pydec outside TLC; outer white space of "
                         "<t> runs not protected by xml:space=preserve (everything else of such a run is judged), applyNumberFormat=0 and builtin formats outside ECMA-376 18.8.30 are not "
@@ -305,7 +312,11 @@ CLAIMED = {
                 "The same operators judge the real library on every readable corpus file, on API-generated workbooks with "
                 "XML-special / non-ASCII / three-level entity text in every text channel and on files built from TLC's "
                 "behaviours: load -> (save -> load) x 3, a second save, and 3 more generations after each single-cell edit; each "
-                "generation logs the full public-getter projection plus the independent decoder's part list and string inventory.",
+                "generation logs the full public-getter projection plus the independent decoder's part list and string inventory. "
+                "Originals the library did not write (built by the check's own writer: rows and columns without cells, equal "
+                "non-adjacent columns, number formats declared under ids below 164, ST_Xstring look-alikes in every string "
+                "carrier) are part of every run, since a writer defect cannot show on an original the same writer produced; "
+                "deviant designs (forgets-hidden, folding columns over gaps, off-by-one escape) are refuted by TLC.",
         "note": TRUST + ", pydec/xlsx.py. Styles are compared through a digest of the effective style; cell format 0 of a foreign "
                         "file is identified as the one digest of the original that no longer occurs after the first save; parts "
                         "are compared by name and content type, strings as a multiset.",
